@@ -289,6 +289,10 @@ class Body:
             return "%s(%s)" % (s["op"], self.desc(s["o"][0], depth + 1))
         if s["k"] == "discr":
             return "discr(%s)" % self.desc(s["o"][0], depth + 1)
+        if s["k"] == "agg":
+            nm = s.get("agg", "agg").split(":", 1)[-1].rsplit("::", 2)
+            nm = "::".join(nm[-2:])
+            return "%s{%s}%s" % (nm, ",".join(self.desc(a, depth + 1) for a in s["o"][:4]), fields)
         return "tmp" + fields
 
     def guards_of(self, bb):
